@@ -170,4 +170,10 @@ FromBigInt(d, v) ==
 \* canonical integer of the element
 IntoBigInt(d) == /\ K = 0 /\ UNCHANGED regs
                  /\ ev' = [op |-> "into_bigint", d |-> d, ret |-> regs[d]]
+\* decimal strings (prime fields): parsing the decimal numeral of an integer (optional minus sign, any magnitude) gives that
+\* integer modulo p; printing gives the numeral of the canonical residue.  The numeral itself is formed / parsed on the
+\* harness side with an independent big-integer library; the specification deals in the numbers.
+FromStr(d, neg, mag) == /\ K = 0 /\ regs' = [regs EXCEPT ![d] = IntDef(neg, mag)]
+                        /\ ev' = [op |-> "from_str", d |-> d, neg |-> neg, mag |-> mag]
+ToStr(d) == /\ K = 0 /\ UNCHANGED regs /\ ev' = [op |-> "to_str", d |-> d, ret |-> regs[d]]
 =============================================================================
